@@ -13,6 +13,8 @@ Record snap := mkSnap {
   sn_vals : list validator;
   sn_pool : list (bytes * Z);
   sn_owed : list (bytes * Z);                 (* change of (outstanding + community pool) over the end-block, Dec *)
+  sn_owed_val : list (Z * bytes * Z);         (* change of each validator's outstanding rewards over the end-block, Dec *)
+  sn_owed_comm : list (bytes * Z);            (* change of the community pool over the end-block, Dec *)
   sn_lookup : list (Z * bytes * option Z);    (* by-request-id query for every request id ever used *)
   sn_inv : bool                               (* all registered crisis invariants hold *)
 }.
@@ -79,6 +81,25 @@ Definition model_lookup (s : sstate) (tid : Z) (req : bytes) : option Z :=
   | None => None
   end.
 
+(* per (validator, denomination) and per denomination sums of the model's credit lines *)
+Definition line_val (ls : list (Z * bytes * Z * Z)) (a : Z) (d : bytes) : Z :=
+  sumZ (map (fun l : Z * bytes * Z * Z =>
+     let '(a', d', fin, _) := l in if (a =? a') && bytes_eqb d d' then fin else 0) ls).
+Definition line_comm (ls : list (Z * bytes * Z * Z)) (d : bytes) : Z :=
+  sumZ (map (fun l : Z * bytes * Z * Z =>
+     let '(_, d', _, con) := l in if bytes_eqb d d' then con else 0) ls).
+Definition lines_agree (ls : list (Z * bytes * Z * Z)) (vals : list (Z * bytes * Z)) (comm : list (bytes * Z)) : bool * bool :=
+  (forallb (fun x : Z * bytes * Z => line_val ls (fst (fst x)) (snd (fst x)) =? snd x) vals
+   && forallb (fun l : Z * bytes * Z * Z =>
+        let '(a, d, _, _) := l in
+        let want := line_val ls a d in
+        (want =? 0) || existsb (fun x : Z * bytes * Z => (fst (fst x) =? a) && bytes_eqb (snd (fst x)) d && (snd x =? want)) vals) ls,
+   forallb (fun x : bytes * Z => line_comm ls (fst x) =? snd x) comm
+   && forallb (fun l : Z * bytes * Z * Z =>
+        let '(_, d, _, _) := l in
+        let want := line_comm ls d in
+        (want =? 0) || existsb (fun x : bytes * Z => bytes_eqb (fst x) d && (snd x =? want)) comm) ls).
+
 (* field codes of a disagreement *)
 Definition cmp_snap (prev c : cstate) (i : snap) : list Z :=
   let s := c_s c in let o := c_o c in
@@ -96,7 +117,10 @@ Definition cmp_snap (prev c : cstate) (i : snap) : list Z :=
   ++ (if coins_agree (o_pool o) (sn_pool i) then [] else [12])
   ++ (if coins_agree (credited_delta (o_credited (c_o prev)) (o_credited o)) (sn_owed i) then [] else [13])
   ++ (if forallb (fun l : Z * bytes * option Z =>
-                    option_eqb Z.eqb (model_lookup s (fst (fst l)) (snd (fst l))) (snd l)) (sn_lookup i) then [] else [14]).
+                    option_eqb Z.eqb (model_lookup s (fst (fst l)) (snd (fst l))) (snd l)) (sn_lookup i) then [] else [14])
+  ++ (let ls := oracle_end_lines (staking_end (c_o prev)) (c_s prev) (c_h prev) in
+      let '(a, b) := lines_agree ls (sn_owed_val i) (sn_owed_comm i) in
+      (if a then [] else [17]) ++ (if b then [] else [18])).
 
 (* runs model and implementation observations side by side; a disagreement is (event index, field) *)
 Fixpoint compare (k : Z) (c : cstate) (es : list event) (os : list iobs) : list (Z * Z) :=
